@@ -71,35 +71,92 @@ pub fn tree_binary(op: BinOp, a: &Tree, b: &Tree) -> Tree {
 /// trees (Arc sharing) or rebuild every operand from scratch (separately
 /// allocated, structurally equal)
 pub fn build_trees(spec: &DagSpec) -> Vec<Tree> {
+    build_trees_forms(spec, false)
+}
+
+/// `alt`: the sibling forms of the Tree API are used wherever they apply --
+/// `tree op f32`, `f32 op tree` and `tree op= tree` for + - * /, `From<f32>` /
+/// `From<i32>` for constants.  The result must be structurally equal to the
+/// plain form.
+pub fn build_trees_forms(spec: &DagSpec, alt: bool) -> Vec<Tree> {
     let mut pool: Vec<Tree> = (0..spec.nvars as usize)
         .map(|i| Tree::from(spec_var(i)))
         .collect();
+    let mut consts: Vec<Option<f32>> = vec![None; pool.len()];
+    let constant = |f: f32| -> Tree {
+        if alt {
+            if f == (f as i32) as f32 && f.abs() < 1e9 && !(f == 0.0 && f.is_sign_negative()) {
+                Tree::from(f as i32)
+            } else {
+                Tree::from(f)
+            }
+        } else {
+            Tree::constant(f)
+        }
+    };
     for n in &spec.nodes {
+        let mut c = None;
         let t = if pool.is_empty() {
             match n {
-                NodeSpec::C(f) => Tree::constant(f.0),
-                _ => Tree::constant(0.5),
+                NodeSpec::C(f) => {
+                    c = Some(f.0);
+                    constant(f.0)
+                }
+                _ => {
+                    c = Some(0.5);
+                    constant(0.5)
+                }
             }
         } else {
             match *n {
-                NodeSpec::C(f) => Tree::constant(f.0),
+                NodeSpec::C(f) => {
+                    c = Some(f.0);
+                    constant(f.0)
+                }
                 NodeSpec::U(op, a) => tree_unary(op, &pool[sel_index(a, pool.len())]),
-                NodeSpec::B(op, a, b) => tree_binary(
-                    op,
-                    &pool[sel_index(a, pool.len())],
-                    &pool[sel_index(b, pool.len())],
-                ),
+                NodeSpec::B(op, a, b) => {
+                    let (ia, ib) = (sel_index(a, pool.len()), sel_index(b, pool.len()));
+                    let (ta, tb) = (&pool[ia], &pool[ib]);
+                    match (alt, op, consts[ia], consts[ib]) {
+                        (true, BinOp::Add, _, Some(k)) => ta.clone() + k,
+                        (true, BinOp::Sub, _, Some(k)) => ta.clone() - k,
+                        (true, BinOp::Mul, _, Some(k)) => ta.clone() * k,
+                        (true, BinOp::Div, _, Some(k)) => ta.clone() / k,
+                        (true, BinOp::Add, Some(k), None) => k + tb.clone(),
+                        (true, BinOp::Sub, Some(k), None) => k - tb.clone(),
+                        (true, BinOp::Mul, Some(k), None) => k * tb.clone(),
+                        (true, BinOp::Div, Some(k), None) => k / tb.clone(),
+                        (true, BinOp::Add, None, None) => {
+                            let mut t = ta.clone();
+                            t += tb.clone();
+                            t
+                        }
+                        (true, BinOp::Sub, None, None) => {
+                            let mut t = ta.clone();
+                            t -= tb.clone();
+                            t
+                        }
+                        (true, BinOp::Mul, None, None) => {
+                            let mut t = ta.clone();
+                            t *= tb.clone();
+                            t
+                        }
+                        (true, BinOp::Div, None, None) => {
+                            let mut t = ta.clone();
+                            t /= tb.clone();
+                            t
+                        }
+                        _ => tree_binary(op, ta, tb),
+                    }
+                }
             }
         };
         pool.push(t);
+        consts.push(c);
     }
     pool
 }
 
-/// The trees of `spec`, where `spec` differs from the spec `base` was built
-/// from only in node `mi`: every entry that does not depend on that node is the
-/// *same allocation* as in `base` (Arc clone), the others are rebuilt.  The two
-/// roots are then different trees that share sub-trees by pointer.
 pub fn build_trees_sharing(spec: &DagSpec, base: &[Tree], mi: usize) -> Vec<Tree> {
     let nv = spec.nvars as usize;
     let mut pool: Vec<Tree> = base[..nv + mi].to_vec();
@@ -340,7 +397,9 @@ fn meaning(dag: &DagSpec, points: &[Vec<Fl>], mutate: u16, case: &Case, cx: &mut
     );
 
     // structural equality and hashing of separately allocated trees
-    let trees2 = build_trees(dag);
+    // (built through the sibling forms of the Tree API: tree op f32, f32 op
+    // tree, op-assign, From<f32> / From<i32>)
+    let trees2 = build_trees_forms(dag, true);
     ensure!(
         trees[root] == trees2[root],
         "tree-eq",
